@@ -136,7 +136,10 @@ def variants(inst, rng, sc):
     if not has_tags and any(len(n["edges"]) > 1 for _, n, _, _ in scopes):
         q = copy.deepcopy(q0)
         for _, n, _, _ in paths(q): n["edges"].reverse()
-        yield "equal", [inst, mk(q, args0, "edges_reordered")]
+        # the elements of a folded list come in the enumeration order of the folded subquery, which reordering the edges inside
+        # that subquery legitimately permutes: there the lists are compared as bags ("the same contents"), elsewhere exactly
+        inside = any(uf and len(n["edges"]) > 1 for _, n, uf, _ in scopes)
+        yield ("equal_foldbag" if inside else "equal"), [inst, mk(q, args0, "edges_reordered")]
 
 def count_filter_cases(tier, seed):
     """systematic: a second count filter added to a fold that already has one (every operator pair), on folds that nothing observes
